@@ -243,9 +243,7 @@ Section Correct.
   Variable cf : gconf.
   Variable r : Z.
   Variable pb : nat -> pyval -> bool.
-  (* user callables inside Is[...] are modelled as total boolean functions *)
-  Definition preds_of (f : nat) (v : pyval) : res pyval := Ok (VBool (pb f v)).
-  Notation preds := preds_of.
+  Notation preds := (preds_of pb).
   Notation ev := (eval r preds).
 
   Lemma ev_var n E s i y : agree n E s -> i < n -> E i = Some y -> ev (EVar (Pith i)) s = (Ok y, s).
